@@ -18,6 +18,9 @@ def scenarios(rnd, quick, judge, multi=False, factory=None):
         dict(pool="functor", nw=2, calls=[dict(n=4, chunk=2, ordered=False)]),
         dict(pool="functor", nw=1, calls=[dict(n=0, chunk=1, ordered=True)]),
         dict(pool="functor", nw=2, wq=1, calls=[dict(n=3, chunk=1, ordered=True, lazy=True)]),
+        # a fully consumed call returns its results also on a pool that was used before (left-overs of the earlier call)
+        dict(pool="functor", nw=1, calls=[dict(n=1, chunk=1, ordered=True, lazy=True), dict(n=3, chunk=1, ordered=True, lazy=True)]),
+        dict(pool="functor", nw=2, calls=[dict(n=2, chunk=1, ordered=False), dict(n=0, chunk=1, ordered=True), dict(n=3, chunk=2, ordered=True)]),
     ]
     for s in fixed:
         out.append(s)
